@@ -1072,4 +1072,18 @@ theorem deliverAct_cb (d : Dev) (pos : Pos) (a : Act) (s : S) (hf : s.fixAbort =
           · exact h
           · exact absurd h (hact _)
 
+
+/-- `connected_ts` is set only while a link is open and `connected` was signalled in the current attempt -/
+theorem connTs_phase (d : Dev) (c : S) (h : CInv d c) (hts : c.connTs = true) :
+    c.link = true ∧ (phase c).isConnected = true := by
+  have hx := h.ts hts
+  have hd : c.dead = false := by
+    cases hy : c.dead
+    · rfl
+    · have := (h.deadSt hy).2.2.1; rw [hx.2] at this; cases this
+  refine ⟨hx.1, ?_⟩
+  rcases h.linkSt hx.1 hd with ⟨_, _, h3⟩ | ⟨h1, _⟩
+  · rw [hx.2] at h3; cases h3
+  · simp only [phase, hx.1, h1, hx.2, if_true]; split <;> rfl
+
 end CfVerif.C02
